@@ -832,7 +832,7 @@ func (g *G) forStmt(nest int) *m.N {
 		keyTy = TStr
 	case k == 7 && g.flip("patseq"):
 		a := m.EArr()
-		for i, c := 0, g.intn("npat", 1, 3); i < c; i++ {
+		for i, c := 0, g.intn("npat", 2, 4); i < c; i++ {
 			a.A = append(a.A, m.EStr(pickS(g, "pat", patPool)))
 		}
 		n.X = a
@@ -888,6 +888,11 @@ func (g *G) forStmt(nest int) *m.N {
 			// a user filter reading the loop metadata from the scope
 			n.Body = append(n.Body, m.NPrint(m.EFilter("lidx", m.EName(n.S))))
 		}
+	}
+	if elTy == TPat && g.callsOK() && !g.C.Wild {
+		// the same matches expression evaluated with a different pattern in
+		// every iteration
+		n.Body = append(n.Body, m.NPrint(m.ECall("cat", m.EBin("matches", pickS(g, "patsubj", []*m.E{m.EStr("abc"), m.EStr("b"), m.EName("s0"), m.EStr("xay")}), m.EName(n.S)))))
 	}
 	if g.C.LoopMeta && n.Y == nil && g.inForIf == 0 {
 		n.Body = append(n.Body, g.loopMeta(depth)...)
